@@ -175,6 +175,9 @@ REGISTRY["C08"] = {
     "rule": ("Distinct = descriptor (task kind, declared names, histories, perturbation seed). Non-trivial = some attempt has >=2 Do calls, or an error mode, or an undeclared name."),
     "tests": [
         {"name": "TestC08Histories", "checks": {"quick": 400, "thorough": 20000}, "shards": {"quick": 16, "thorough": 16}, "gomaxprocs": [4, 2, 16, 8]},
+        # "visible to every later task": what a later task sees of stored results through olive property / header references
+        # (nested paths, array positions, typed and untyped values) is exercised by the C16 engine campaign, run here as part of this check
+        {"name": "TestC16Engine", "pkg": "props/c16", "label": "later-task-inputs", "checks": {"quick": 100, "thorough": 3000}, "shards": {"quick": 4, "thorough": 8}},
     ],
 }
 
@@ -348,6 +351,8 @@ REGISTRY["C16"] = {
     "tests": [
         {"name": "TestC16Value", "checks": {"quick": 6000, "thorough": 400000}, "shards": {"quick": 8, "thorough": 16}},
         {"name": "TestC16Engine", "checks": {"quick": 150, "thorough": 6000}, "shards": {"quick": 8, "thorough": 16}},
+        # reading a stored value back on EVERY visit of a task (task inputs after a loop back to the activity): the C08 campaign, run here too
+        {"name": "TestC08Histories", "pkg": "props/c08", "label": "read-back-on-every-visit", "checks": {"quick": 150, "thorough": 5000}, "shards": {"quick": 4, "thorough": 8}},
         {"name": "FuzzC16ValueFrom", "mode": "fuzz", "tiers": ["thorough"], "checks": {"thorough": 120}, "shards": {"thorough": 1}, "limit": {"thorough": 900}},
     ],
 }
